@@ -51,6 +51,8 @@ pub fn run(a: &Args, rep: &mut Report) {
         "C08" => crate::p_dim::c08(a, rep),
         "C16" => crate::p_nn::c16(a, rep),
         "C17" => crate::p_nn::c17(a, rep),
+        "C19" => crate::p_geo::c19(a, rep),
+        "C20" => crate::p_geo::c20(a, rep),
         "C10" => crate::p_pred::c10(a, rep),
         "C11" => {
             let out = a.out_dir.clone().unwrap_or_else(|| a.verif_dir.clone());
@@ -98,6 +100,8 @@ pub fn replay(a: &Args, path: &Path, rep: &mut Report) -> i32 {
         // monitors whose cases are not tessellation inputs replay from the detail record
         let handled = match a.id.as_str() {
             "C10" | "C11" => crate::p_pred::replay_c10(&v, rep),
+            "C19" => crate::p_geo::replay_c19(&v, rep),
+            "C20" => crate::p_geo::replay_c20(&v, rep),
             _ => false,
         };
         if !handled {
